@@ -839,6 +839,7 @@ type panicFacts struct {
 		Entries  []string `json:"entries"`
 	} `json:"panicSites"`
 	PanicSiteCounts map[string]int `json:"panicSiteCounts"`
+	V4ValTypes      []string       `json:"v4valTypes"`
 }
 
 type panicBaseline struct {
@@ -878,6 +879,12 @@ func loadSteering(tags map[string]int) map[string]int {
 	if err != nil || json.Unmarshal(raw, &pf) != nil || pf.PanicSiteCounts == nil {
 		tags["panic-sites/inventory-unavailable"] = 1
 		return mult
+	}
+	// value types the source has and this oracle's table (c03_observe.go: v4valTypes) lacks
+	for _, tn := range pf.V4ValTypes {
+		if v4valByName(tn) == nil {
+			tags["v4val/type-in-source-not-in-oracle-table:"+tn] = 1
+		}
 	}
 	modelled, unmodelled := 0, 0
 	cur := map[string]map[string]int{}
